@@ -6,7 +6,8 @@ observes the listed names, every column (read through the name), len(obs.feature
 observation, X/Y/Z/T, the outcome (ok / exception kind) and the returned value, on the real code,
 on the Lean model of the code (dict + rows) and on the Lean specification (name -> column).
 The oracle (`spec`) keeps, independently of both, "what was last written under each name"."""
-import re
+import re, json, hashlib, math
+import numpy as np
 from engine import Prop, fbits, bitsf, close
 
 NAN = float("nan")
@@ -34,16 +35,30 @@ def is_nan(v):
     return isinstance(v, float) and v != v
 
 
+def is_scalar(v):
+    """a real scalar: Python int / float / bool or a 0-dimensional numpy number - not a container"""
+    return isinstance(v, (int, float, bool, np.integer, np.floating, np.bool_)) and np.ndim(v) == 0
+
+
 def canon(v):
-    """value stored in a feature -> float (or a marker string for a non-number)"""
-    if isinstance(v, bool):
-        return "bool:%s" % v
-    if isinstance(v, (int, float)):
-        return float(v)
-    try:
-        return float(v)  # numpy scalars
-    except Exception:
+    """value stored in a feature -> float (or a marker string for something that is not one real scalar)"""
+    if not is_scalar(v):
         return "obj:%s" % type(v).__name__
+    return float(v)
+
+
+def finite(l):
+    return all(isinstance(v, float) and math.isfinite(v) for v in l)
+
+
+def close_scaled(a, b):
+    """vectors computed through an FFT: tolerance relative to the largest magnitude"""
+    if len(a) != len(b) or any(isinstance(v, str) for v in a):
+        return False
+    if not finite(b):
+        return True                        # non-finite inputs: values out of scope (IEEE inf/nan algebra of the FFT)
+    m = max([1.0] + [abs(v) for v in b])
+    return all(isinstance(x, float) and abs(x - y) <= 1e-9 * m * max(1, len(b)) for x, y in zip(a, b))
 
 
 # ------------------------------------------------------------------------------------------
@@ -206,12 +221,39 @@ def op_targets(op):
         return {op[4] if op[4] is not None else op[2]}
     if k == "svoid":
         return {op[4] if op[4] is not None else op[2]}
-    if k == "sum":
+    if k in ("sum", "agg"):
         return set()
+    if k == "conv":
+        return {op[3] if op[3] is not None else op[1]}
+    if k in ("fft", "apply", "shiftc"):
+        return {op[3] if op[3] is not None else op[1 if k == "fft" else 2 if k == "apply" else 1]}
+    if k == "rev":
+        return {op[2] if op[2] is not None else op[1]}
     if k == "expr":
         lhs, _ = parse_expr(op[1])
         return {lhs} if lhs is not None else set()
     raise ValueError(k)
+
+
+FFT_KERNELS = {1: [2.0], 3: [1.0, 2.0, 1.0]}
+
+
+def oracle_conv(a, b):
+    """|circular cross-correlation|, by the definition (no FFT)"""
+    n = len(a)
+    return [abs(sum(a[(j + k) % n] * b[j] for j in range(n))) for k in range(n)]
+
+
+def oracle_fft_filter(g, klen):
+    """Filter_FFT with a list kernel, by the definition (no FFT): correlate, flip, roll by D"""
+    n = len(g)
+    ker = FFT_KERNELS[klen]
+    tot = sum(ker)
+    h = [v / tot for v in ker] + [0.0] * (n - klen)
+    r = [sum(h[(j + k) % n] * g[j] for j in range(n)) for k in range(n)]
+    f = r[::-1]
+    D = klen // 2
+    return [f[(i - D) % n] for i in range(n)]
 
 
 def expected(tab, op):
@@ -222,7 +264,84 @@ def expected(tab, op):
     ('-' = not checked)."""
     n = tab.n
     k = op[0]
-    e = {"cols": {}, "drop": set(), "coord": {}, "ret": "-"}
+    e = {"cols": {}, "drop": set(), "coord": {}, "ret": "-", "scaled": False}
+    if n == 0:
+        return None                        # no observation: nothing can be written
+    if k in ("create", "setitem") and op[1] in RESERVED:
+        return None
+    if k in ("conv", "fft", "apply", "shiftc"):
+        out = list(op_targets(op))[0]
+        if out in RESERVED:
+            return None
+
+        def rd2(name):
+            if name == out and out not in tab.cols:
+                return [0.0] * n
+            return tab.read(name)
+        if k == "conv":
+            a, b = rd2(op[1]), rd2(op[2])
+            if a is None or b is None:
+                return None
+            c = oracle_conv(a, b) if finite(a) and finite(b) else [NAN] * n
+            e["scaled"] = True
+        elif k == "fft":
+            a = rd2(op[1])
+            if a is None or op[2] > n:
+                return None
+            c = oracle_fft_filter(a, op[2]) if finite(a) else [NAN] * n
+            e["scaled"] = True
+        elif k == "apply":
+            a = rd2(op[2])
+            if a is None:
+                return None
+            c = [v * v for v in a] if op[1] == "square" else [-v for v in a]
+        else:
+            a = rd2(op[1])
+            if a is None:
+                return None
+            c = [a[(i - op[2]) % n] for i in range(n)]
+        e["cols"][out] = c
+        e["ret"] = ("c", c)
+        return e
+    if k == "rev":
+        out = list(op_targets(op))[0]
+        a = tab.read(op[1])
+        if a is None or out in RESERVED:
+            return None
+        e["cols"][out] = a[::-1]
+        return e
+    if k == "agg":
+        a = tab.read(op[2])
+        if a is None:
+            return None
+        kind = op[1]
+        if kind == "min":
+            m = 1e300
+            for v in a:
+                if v < m:
+                    m = v
+            e["ret"] = ("n", m)
+        elif kind == "argmax":
+            m, im = -1e300, 0
+            for i, v in enumerate(a):
+                if v > m:
+                    m, im = v, i
+            e["ret"] = ("n", float(im))
+        elif kind == "zeros":
+            e["ret"] = ("c", [float(i) for i, v in enumerate(a) if abs(v) == 0])
+        elif kind == "median":
+            if finite(a):
+                srt = sorted(a)
+                e["ret"] = ("n", srt[n // 2] if n % 2 else 0.5 * (srt[n // 2 - 1] + srt[n // 2]))
+        elif kind == "len":
+            e["ret"] = ("n", float(n))
+        elif kind == "equal":
+            b = tab.read(op[3])
+            if b is None:
+                return None
+            eq = all((is_nan(p) and is_nan(q)) or p == q for p, q in zip(a, b))
+            e["ret"] = ("n", 1.0 if eq else 0.0)
+        return e
     if k == "create":
         if op[1] in tab.cols:
             return e                       # creating an existing feature writes nothing
@@ -361,7 +480,7 @@ def sim_names(case):
         tg = [t for t in op_targets(op) if t not in RESERVED]
         if k == "remove":
             names = [x for x in names if x != op[1]]
-        elif k in ("create", "setitem", "addaf", "uvoid", "bvoid", "svoid"):
+        elif k in ("create", "setitem", "addaf", "uvoid", "bvoid", "svoid", "conv", "fft", "apply", "shiftc", "rev"):
             for t in tg:
                 if t not in names:
                     names.append(t)
@@ -415,13 +534,20 @@ class P(Prop):
                 "getObsAnalyticalFeature / setObsAnalyticalFeature / hasAnalyticalFeature / addAnalyticalFeature / __setitem__ / "
                 "setX|Y|ZFromAnalyticalFeature / operate (operator objects and str) / __applyOperation (= + - *) / __evaluateRPN / "
                 "__evaluate (on the RPN token list) of core/track.py; utils.addListToAF; Integrator, Differentiator, Adder, "
-                "Substracter, Multiplier, ScalarAdder, ScalarSubstracter, ScalarRevSubstracter, ScalarMuliplier, Sum of core/operators.py")
-    trusted = ["the expression parser (string preprocessing + makeRPN) is property C02's: the model receives the RPN token list computed by "
+                "Substracter, Multiplier, ScalarAdder, ScalarSubstracter, ScalarRevSubstracter, ScalarMuliplier, Sum, Reverser of core/operators.py; "
+                "table effect only (values opaque) of Convolution, Filter_FFT, Apply / Square / Inverter, ShiftCircular and of the non-void "
+                "Min, Argmax, Zeros, Median, Aggregate, Equal")
+    trusted = ["operators with opaque values (CONVOLUTION, FILTER_FFT - numpy results -, SQUARE, INVERTER, SHIFT_CIRCULAR): the model is handed the list the "
+               "implementation returned and models where it is written; the oracle recomputes the values from the operator's definition (direct sums, no FFT) "
+               "and checks that every stored cell is one real scalar",
+               "the expression parser (string preprocessing + makeRPN) is property C02's: the model receives the RPN token list computed by "
                "the harness's own recursive-descent parser, so a parser defect shows up here as a disagreement",
                "addAnalyticalFeature: the model writes through the name at every index (Python hoists the index lookup); the algorithms used are read-only",
                "out of the model (never generated): 'timestamp' as an operand, assignment to 't', operators other than = + - * in expressions, empty names"]
     rule = ("histories of API calls over the names a b c #0 #u (+ reserved and unknown names) on tracks of 1..4 observations, values small integers (as floats) and NaN; "
-            "every history over a 28-call alphabet to depth 3 (thorough: 4) on a 2-observation track, random histories to depth 40; "
+            "every history over a 32-call alphabet to depth 3 (thorough: 4) on a 2-observation track, random histories to depth 40; "
+            "operator objects of every family (unary / binary / scalar void incl. numpy-valued results, bracket-writing REVERSER, non-void aggregates), "
+            "expressions incl. self-assignment (n=n, n=n+0, x=x); a call that raises although all its operands exist and it is well formed is a failure; "
             "non-trivial = the history deletes (remove, '#DELETE' or re-assignment by an expression) a column that is not the last one while other features are listed")
 
     # ---------------------------------------------------------------- setup
@@ -449,6 +575,7 @@ class P(Prop):
         ["expr", "c=a+b", "m"], ["expr", "a=a*2", "m"], ["expr", "a+b", "g"], ["expr", "x=a", "m"], ["expr", "b=3", "m"],
         ["expr", "c=a*2+nosuch", "m"], ["expr", "a=b", "m"], ["expr", "c=a*2+b*3", "m"],
         ["addaf", "a", ["affine", 2, 1], "m"], ["create", "x", "s", 1],
+        ["expr", "a=a", "m"], ["conv", "a", "b", "c"], ["fft", "a", 1, None], ["rev", "a", "b"],
     ]
 
     def exhaustive_scopes(self, tier):
@@ -501,6 +628,9 @@ class P(Prop):
             if r < 0.85:
                 return operand() + "*" + operand()
             return "(" + operand() + rng.choice("+-") + operand() + ")*" + operand()
+        if rng.random() < 0.08:
+            nm = rng.choice(["a", "b", "c", "x", "y", "z"])
+            return nm + "=" + rng.choice([nm, nm + "+0", nm + "*1", "0+" + nm, "(" + nm + ")"])
         k = rng.choice([1, 1, 2, 2, 3])
         s = term()
         for _ in range(k - 1):
@@ -540,8 +670,25 @@ class P(Prop):
         if r < 0.80:
             return ["svoid", rng.choice(["add", "sub", "rsub", "mul"]), self.rand_in(rng), self.rand_val(rng),
                     rng.choice([None, self.rand_name(rng, True), self.rand_name(rng, True)])]
-        if r < 0.83:
+        if r < 0.82:
             return ["sum", self.rand_in(rng)]
+        if r < 0.875 and n > 0:
+            q = rng.random()
+            out = rng.choice([None, self.rand_name(rng, True), self.rand_name(rng, True)])
+            if q < 0.25:
+                return ["conv", self.rand_in(rng), self.rand_in(rng), out]
+            if q < 0.45:
+                return ["fft", self.rand_in(rng), 3 if (n >= 3 and rng.random() < 0.6) else 1, out]
+            if q < 0.6:
+                return ["apply", rng.choice(["square", "neg"]), self.rand_in(rng), out]
+            if q < 0.7:
+                return ["shiftc", self.rand_in(rng), rng.randrange(-2, 4), out]
+            if q < 0.82:
+                return ["rev", self.rand_in(rng), out]
+            kind = rng.choice(["min", "argmax", "zeros", "median", "len", "equal"])
+            if kind == "equal":
+                return ["agg", kind, self.rand_in(rng), self.rand_in(rng)]
+            return ["agg", kind, self.rand_in(rng)]
         s = self.rand_expr(rng)
         # track["…"] is routed to operate() only when the string contains an operator character
         return ["expr", s, rng.choice("mmg") if any(ch in s for ch in "+-*()=") else "m"]
@@ -662,6 +809,26 @@ class P(Prop):
             return t.operate(self.SOPS[op[1]], op[2], fv(op[3]), op[4])
         if k == "sum":
             return t.operate(self.Operator.SUM, op[1])
+        O = self.Operator
+        if k == "conv":
+            return t.operate(O.CONVOLUTION, op[1], op[2]) if op[3] is None else t.operate(O.CONVOLUTION, op[1], op[2], op[3])
+        if k == "fft":
+            ker = list(FFT_KERNELS[op[2]])
+            return t.operate(O.FILTER_FFT, op[1], ker) if op[3] is None else t.operate(O.FILTER_FFT, op[1], ker, op[3])
+        if k == "apply":
+            o = O.SQUARE if op[1] == "square" else O.INVERTER
+            return t.operate(o, op[2]) if op[3] is None else t.operate(o, op[2], op[3])
+        if k == "shiftc":
+            return t.operate(O.SHIFT_CIRCULAR, op[1], op[2]) if op[3] is None else t.operate(O.SHIFT_CIRCULAR, op[1], op[2], op[3])
+        if k == "rev":
+            return t.operate(O.REVERSER, op[1]) if op[2] is None else t.operate(O.REVERSER, op[1], op[2])
+        if k == "agg":
+            kind = op[1]
+            if kind == "len":
+                return t.operate(O.AGGREGATE, op[2], len)
+            if kind == "equal":
+                return t.operate(O.EQUAL, op[2], op[3])
+            return t.operate({"min": O.MIN, "argmax": O.ARGMAX, "zeros": O.ZEROS, "median": O.MEDIAN}[kind], op[2])
         if k == "expr":
             if op[2] == "g":
                 return t[op[1]]
@@ -696,7 +863,12 @@ class P(Prop):
                         cells_ok = False
             except BaseException as e:
                 cols[nm] = self.err_of(e)
-        return {"names": names, "cols": cols, "rowlens": [len(o.features) for o in t.getObsList()],
+        bad = []
+        for i, o in enumerate(t.getObsList()):
+            for j, v in enumerate(o.features):
+                if not is_scalar(v) and len(bad) < 3:
+                    bad.append([i, j, type(v).__name__])
+        return {"names": names, "cols": cols, "rowlens": [len(o.features) for o in t.getObsList()], "bad_cells": bad,
                 "X": [canon(v) for v in t.getX()], "Y": [canon(v) for v in t.getY()], "Z": [canon(v) for v in t.getZ()],
                 "T": [canon(v) for v in t.getT()], "cells_ok": cells_ok}
 
@@ -709,7 +881,7 @@ class P(Prop):
                 out = "ok"
                 if r is None or isinstance(r, str):
                     ret = "-"
-                elif isinstance(r, list):
+                elif isinstance(r, (list, tuple, np.ndarray)):
                     ret = ["c", [canon(v) for v in r]]
                 else:
                     ret = ["n", canon(r)]
@@ -720,11 +892,52 @@ class P(Prop):
             ob = self.observe(t)
             ob["out"], ob["ret"] = out, ret
             steps.append(ob)
-        return {"steps": steps}
+        res = {"steps": steps}
+        if any(op[0] in self.OPAQUE for op in case["ops"]):
+            if len(self._impl_cache) > 2000:
+                self._impl_cache.clear()
+            self._impl_cache[self.ckey(case)] = res
+        return res
+
+    # operators whose values the model does not compute: the values written are taken from what the implementation returned
+    OPAQUE = ("conv", "fft", "apply", "shiftc")
+    _impl_cache = {}
+
+    @staticmethod
+    def ckey(case):
+        return hashlib.sha1(json.dumps(case, sort_keys=True).encode()).hexdigest()
+
+    def opaque_vals(self, case):
+        """per step: the list returned by the implementation for an opaque operator ([] when it raised / returned junk)"""
+        key = self.ckey(case)
+        res = self._impl_cache.get(key)
+        if res is None:
+            from engine import _Silence
+            with _Silence():
+                res = self.impl(case)
+        out = {}
+        for k, (op, st) in enumerate(zip(case["ops"], res["steps"])):
+            if op[0] in self.OPAQUE:
+                r = st["ret"]
+                ok = st["out"] == "ok" and r != "-" and r[0] == "c" and all(isinstance(v, float) for v in r[1])
+                out[k] = r[1] if ok else []
+        return out
 
     # ---------------------------------------------------------------- model
-    def op_token(self, op):
+    def op_token(self, op, vals=None):
         k = op[0]
+        if k in self.OPAQUE:
+            out = list(op_targets(op))[0]
+            cols = {"conv": [op[1], op[2]], "fft": [op[1]]}.get(k, [])
+            cells = {"apply": [op[2]], "shiftc": [op[1]]}.get(k, [])
+            return "opq:%s:%s:%s:%s" % (",".join(cols) or "_", ",".join(cells) or "_", out,
+                                        ",".join(fbits(v) for v in vals) if vals else "_")
+        if k == "rev":
+            return "rev:%s:%s" % (op[1], op[2] or "")
+        if k == "agg":
+            if op[1] == "median":
+                return "probe:%s:_" % op[2]
+            return "probe:_:%s" % ",".join(op[2:])
         if k in ("create", "update", "setitem"):
             return "%s:%s:%s:%s" % (k, op[1], op[2], tokf(op[3]) if op[2] == "s" else tokl(op[3]))
         if k == "remove":
@@ -757,7 +970,8 @@ class P(Prop):
             return []
         tb = Tab(case["n"])
         head = " ".join(tokl(c) for c in (tb.X, tb.Y, tb.Z, tb.T))
-        body = " ".join(self.op_token(op) for op in case["ops"])
+        ov = self.opaque_vals(case) if any(op[0] in self.OPAQUE for op in case["ops"]) else {}
+        body = " ".join(self.op_token(op, ov.get(k)) for k, op in enumerate(case["ops"]))
         return ["C01.run %s %s" % (head, body), "C01.arun %s %s" % (head, body)]
 
     @staticmethod
@@ -799,6 +1013,8 @@ class P(Prop):
         """a = implementation's, b = model's; '-' = None / nothing returned"""
         if op[0] == "addaf" and op[3] == "b":
             return True                    # bracket assignment returns nothing
+        if op[0] == "agg":
+            return True                    # value of a non-void operator: outside the model, checked by the oracle
         if a == "-" or b == "-":
             return a == b
         return a[0] == b[0] and close(a[1], b[1])
@@ -870,11 +1086,24 @@ class P(Prop):
                 return where + "reading a feature cell by cell differs from reading the column"
             if op[0] == "expr" and any(nm.startswith("#") for nm in names):
                 return where + "evaluator temporaries remain listed: %s" % [nm for nm in names if nm.startswith("#")]
+            if ob["bad_cells"]:
+                i, j, ty = ob["bad_cells"][0]
+                return where + "observation %d stores a %s in feature column %d: not one value per listed feature" % (i, ty, j)
             tg = op_targets(op)
             hashy = op[0] == "expr"
-            e = expected(tab, op) if ob["out"] == "ok" else None
+            e = expected(tab, op)
+            if e is not None and ob["out"] != "ok":
+                lost = [nm for nm in tg if nm in tab.cols and nm not in names]
+                return where + "the call raised although every operand exists and the call is well formed (expected to write %s)%s" % (
+                    {k_: v for k_, v in list(e["cols"].items()) + list(e["coord"].items())} or "nothing",
+                    "; feature %s is no longer listed: its values are lost" % lost if lost else "")
             if e is not None:
                 for nm, c in e["cols"].items():
+                    if e["scaled"]:
+                        got = ob["cols"].get(nm)
+                        if not isinstance(got, list) or not close_scaled(got, c):
+                            return where + "feature %r reads %s, the operator's definition gives %s" % (nm, got, c)
+                        c = got            # keep the stored (rounded) values for the next calls
                     tab.cols[nm] = c
                 for nm in e["drop"]:
                     tab.cols.pop(nm, None)
@@ -883,7 +1112,9 @@ class P(Prop):
                 if e["ret"] != "-":
                     r = ob["ret"]
                     if not (op[0] == "addaf" and op[3] == "b"):
-                        if r == "-" or r[0] != e["ret"][0] or not close(r[1], e["ret"][1]):
+                        good = r != "-" and r[0] == e["ret"][0] and (
+                            close_scaled(r[1], e["ret"][1]) if e["scaled"] else close(r[1], e["ret"][1]))
+                        if not good:
                             return where + "returned %s, expected %s" % (r, e["ret"])
                 free = set()
             else:
